@@ -18,7 +18,7 @@ pub struct Case {
     pub n: String,
     pub single: bool,
     pub with_options: bool,
-    /// 0 = multiplicity grid; 1 = a two-window upload with a window of 300 blocks; 2 = a 600-block window download with a stale ACK after the window (real elapsed time)
+    /// 0 = multiplicity grid; 1 = a two-window upload with a window of 300 blocks; 2 = a 600-block window download with a stale ACK after the window (real elapsed time); 3 = the client leaves after the final ACK; 4 = read-only server: refusals exactly once
     #[serde(default)]
     pub scenario: u8,
 }
@@ -64,6 +64,9 @@ fn run_case(dir: &Path, c: &Case) -> Result<Vec<&'static str>, (String, String)>
     if c.single {
         args.push(wire::s("-s"));
     }
+    if c.scenario == 4 {
+        args.push(wire::s("-r"));
+    }
     let parsed: Option<u64> = c.n.parse().ok();
     let must_reject = !matches!(parsed, Some(v) if v < 255);
     let mut srv = match Server::start(&args, &root) {
@@ -95,6 +98,13 @@ fn run_case(dir: &Path, c: &Case) -> Result<Vec<&'static str>, (String, String)>
     }
     if c.scenario == 3 {
         let r = client_leaves_after_final_ack(&srv, &d, n);
+        let tail = srv.stderr_tail();
+        drop(srv);
+        let _ = std::fs::remove_dir_all(&root);
+        return r.map_err(|(s, m)| (s, format!("{} | stderr: {}", m, tail)));
+    }
+    if c.scenario == 4 {
+        let r = refusals_once(&srv, n, true);
         let tail = srv.stderr_tail();
         drop(srv);
         let _ = std::fs::remove_dir_all(&root);
@@ -134,6 +144,8 @@ fn run_case(dir: &Path, c: &Case) -> Result<Vec<&'static str>, (String, String)>
     if errs.len() != 1 || !matches!(refcodec::decode(&errs[0]), RDec::Ok(RPacket::Error { code: 1, .. })) {
         return Err(("initial-reply-multiplicity".into(), format!("N={}: the ERROR reply arrived {} time(s) (expected once)", n, errs.len())));
     }
+    // ---- the other refusal of a writable server: the name exists and --overwrite is not given
+    refusals_once(&srv, n, false)?;
     // ---- upload: ACK 0 / OACK once, ACK 1 x (N+1)
     let cl3 = Client::new();
     cl3.send(&wclient::request_bytes(true, "up.bin", &opts), srv.addr);
@@ -302,6 +314,34 @@ fn stale_ack_after_long_window(srv: &Server, d: &Path, n: usize) -> Result<Vec<&
     Ok(vec!["stale-ack-after-long-window"])
 }
 
+/// every kind of refused request is answered with exactly one ERROR, whatever N is (read-only server: WRQ with and
+/// without options; writable server without --overwrite: WRQ naming an existing file)
+fn refusals_once(srv: &Server, n: usize, read_only: bool) -> Result<Vec<&'static str>, (String, String)> {
+    let quiet = Duration::from_millis(300);
+    let reqs: Vec<(&str, Vec<(String, String)>, u16)> = if read_only {
+        vec![("new.bin", vec![], 2), ("f.bin", vec![("blksize".into(), "1024".into())], 2), ("new2.bin", vec![("tsize".into(), "10".into()), ("windowsize".into(), "2".into())], 2)]
+    } else {
+        vec![("f.bin", vec![], 6), ("f.bin", vec![("blksize".into(), "1024".into())], 6)]
+    };
+    for (name, opts, code) in reqs {
+        let cl = Client::new();
+        cl.send(&wclient::request_bytes(true, name, &opts), srv.addr);
+        let errs = copies(&cl, Duration::from_secs(3), quiet);
+        let ok = errs.len() == 1 && matches!(refcodec::decode(&errs[0]), RDec::Ok(RPacket::Error { code: c, .. }) if c == code);
+        if !ok {
+            return Err(("initial-reply-multiplicity".into(), format!("N={}: the refusal (ERROR {}) of WRQ {:?} {:?} arrived {} time(s) (expected exactly once): {:?}", n, code, name, opts, errs.len(), errs.iter().map(|b| hex(&b[..b.len().min(12)])).collect::<Vec<_>>())));
+        }
+    }
+    if read_only {
+        // the read-only server still serves downloads, every DATA N+1 times
+        let cl = Client::new();
+        cl.send(&wclient::request_bytes(false, "f.bin", &[]), srv.addr);
+        let first = copies(&cl, Duration::from_secs(3), quiet);
+        check_run(&first, n + 1, "DATA 1 from a read-only server", |p| matches!(p, RDec::Ok(RPacket::Data { block: 1, .. })))?;
+    }
+    Ok(vec!["refusals-once"])
+}
+
 fn check_run(got: &[Vec<u8>], want: usize, what: &str, is: impl Fn(&RDec) -> bool) -> Result<(), (String, String)> {
     let all_same = got.windows(2).all(|w| w[0] == w[1]);
     if got.len() != want || !all_same || !got.first().map(|b| is(&refcodec::decode(b))).unwrap_or(false) {
@@ -356,6 +396,11 @@ pub fn run_wire(ctx: &Ctx) {
     for single in [false, true] {
         for n in ["1", "2", "3", "60"] {
             cases.push(Case { n: n.to_string(), single, with_options: false, scenario: 3 });
+        }
+    }
+    for single in [false, true] {
+        for n in ["0", "1", "3", "10"] {
+            cases.push(Case { n: n.to_string(), single, with_options: false, scenario: 4 });
         }
     }
     cases.push(Case { n: "2".to_string(), single: false, with_options: true, scenario: 2 });
